@@ -28,12 +28,12 @@ static Plan gen_wfault(const std::string &prop, const std::string &tier, uint64_
 		p.seti("pool", r.chance(1, 3) ? (long long)r.below(3) : -1);
 		p.op("sweep");
 	} else if (hard) {
-		static const int errs[] = { 5 /*EIO*/, 28 /*ENOSPC*/, 122 /*EDQUOT*/, 9 /*EBADF*/, 32 /*EPIPE*/ };
+		static const int errs[] = { 5 /*EIO*/, 28 /*ENOSPC*/, 122 /*EDQUOT*/, 9 /*EBADF*/, 32 /*EPIPE*/, 27 /*EFBIG*/, 22 /*EINVAL*/, 14 /*EFAULT*/ };
 		// a few EINTR / short faults before the hard one
 		int pre = (int)r.below(4);
 		for (int i = 0; i < pre; i++)
 			p.op("wf", { std::to_string(r.below(200)), r.chance(1, 2) ? "eintr" : "short", std::to_string(r.below(100000)) });
-		p.op("hard", { std::to_string(r.below(400)), std::to_string(errs[r.below(5)]) });
+		p.op("hard", { std::to_string(r.below(400)), std::to_string(errs[r.below(8)]) });
 	} else {
 		int nf = 1 + (int)r.below(r.chance(1, 3) ? 60 : 12);
 		for (int i = 0; i < nf; i++) {
@@ -174,7 +174,9 @@ static RunResult exec_wfault(const Plan &p)
 			res.fail("MODEL", "NOT-ABORTED", "write(2) failed hard with errno " + std::to_string(hardf.arg) + " at call " + std::to_string(hardf.call) + " but the writer finished as if nothing happened");
 		} else if (WIFSIGNALED(st) && WTERMSIG(st) == SIGABRT) {
 			res.faults["hard-write-error"]++;
-			if (err.find("write() failed") == Bytes::npos) res.fail("MODEL", "ABORT-SILENT", "process aborted after the hard write error without the 'write() failed' diagnostic");
+			// "loudly": some diagnostic reaches stderr before the abort (today: "write() failed: <strerror>" and the assertion
+			// text); its wording is the library's business
+			if (err.find_first_not_of(" \t\r\n") == Bytes::npos) res.fail("MODEL", "ABORT-SILENT", "process aborted after the hard write error without any diagnostic on stderr");
 			else res.probes["hard-error-stopped-loudly"]++;
 		} else {
 			// sanitizer report or another signal in the child
